@@ -130,6 +130,6 @@ def main():
     json.dump(m, open("/verif/MANIFEST.json", "w"), indent=1)
     print("claimed:", sorted(CLAIMED))
 
-HOOK_COMMITS = ["67f9b22"]
+HOOK_COMMITS = ["67f9b22", "4bf3a1a"]
 NA = {}
 main()
